@@ -304,6 +304,8 @@ def gen_params(rng, cmd, inputs, style="valid"):
         m = n if not wild or rng.random() < 0.7 else max(0, n + rng.choice([-1, 1]))
         pool = [1, 2, 3, 0.5, 0.25, 1.5, 0, -1, -0.5] if cmd != "WeightedSum" or rng.random() < 0.6 else [1, 2, 3, -1, 0]
         p["Weights"] = [rng.choice(pool) for _ in range(m)]
+        if m and rng.random() < 0.3:
+            p["Weights"][rng.randrange(m)] = 1      # neutral weights invite short-cuts
     elif cmd == "Normalize":
         if rng.random() < 0.6:
             p["StartVal"] = rand_num(rng)
@@ -427,6 +429,15 @@ def near_discontinuity(case):
     cmd = case.cmd
     curve_z = cmd in ("NormalizeCurveZScore", "CvtToFuzzyCurveZScore")
     m2m = "MeanToMid" in cmd
+    if cmd in ZSCORE and case.inputs:
+        # a (nearly) constant array: the exact standard deviation is 0 (everything undefined) while numpy's rounded one may be
+        # a few ulps above 0 (everything defined and clamped) - a discontinuity of the mathematical function itself
+        v = [float(x) for x in case.inputs[0].compressed().tolist()]
+        if v:
+            fstd = float(numpy.ma.std(case.inputs[0]))
+            fmean = float(numpy.ma.mean(case.inputs[0]))
+            if (min(v) == max(v)) != (fstd == 0.0) or (0.0 < fstd < 1e-9 * max(1.0, abs(fmean))):
+                return True
     if not (curve_z or m2m):
         return False
     a = case.inputs[0]
@@ -454,9 +465,15 @@ def near_discontinuity(case):
         lo = [v for v in vs if v <= m]
         hi = [v for v in vs if v > m]
         pts_x = [m] + ([sum(lo) / len(lo)] if lo else []) + ([sum(hi) / len(hi)] if hi else [])
-        pts_f = [float(p) for p in pts_x]
-        # numpy computes these means by pairwise float summation and one division: exact iff representable
-        exact = all(Fraction(f) == x for f, x in zip(pts_f, pts_x)) and all(abs(v) < 2 ** 30 for v in fvals)
+        # the same statistics as numpy computes them (float summation and division)
+        arr = a[a != 0] if case.params.get("IgnoreZeros") else a
+        with warnings.catch_warnings():
+            warnings.simplefilter("ignore")
+            fm = arr.mean()
+            flo = arr[arr <= fm].compressed()
+            fhi = arr[arr > fm].compressed()
+            pts_f = [float(fm)] + ([float(flo.mean())] if flo.size else []) + ([float(fhi.mean())] if fhi.size else [])
+        exact = len(pts_f) == len(pts_x) and all(Fraction(f) == x for f, x in zip(pts_f, pts_x))
         if exact:
             pts_x = pts_x + [min(ex), max(ex)]
     if exact:
